@@ -245,7 +245,7 @@ def auth_lines(mech, shape, user, secret, zid):
 
 SHAPES = ['initial', 'challenge', 'cancel', 'bad64-initial', 'bad64', 'empty-initial', 'empty', 'nonutf8-initial', 'nonutf8']
 # after-aborted-*: an earlier LOGIN exchange of the same session was given up after the user name (cancelled / bad base64)
-POSITIONS = ['before-ehlo', 'normal', 'after-success', 'in-transaction', 'after-aborted-cancel', 'after-aborted-bad64', 'after-aborted-plain']
+POSITIONS = ['before-ehlo', 'normal', 'after-success', 'after-success-ehlo', 'in-transaction', 'after-aborted-cancel', 'after-aborted-bad64', 'after-aborted-plain']
 
 
 def auth_cases(tier):
@@ -264,7 +264,7 @@ def auth_cases(tier):
                         for u, s, z in itertools.product(USERS_T if big else USERS, SECRETS_T if big else SECRETS, ZIDS):
                             if z and mech != 'PLAIN':
                                 continue
-                            for verdict in ('accept', '535'):
+                            for verdict in ('accept', '535') + (('454', '534') if (u, s, z) == (USERS[0], SECRETS[0], '') else ()):
                                 yield (tlsmode, pos, mech, shape, u, s, z, verdict)
                     else:
                         yield (tlsmode, pos, mech, shape, 'user', 'pw', '', 'accept')
@@ -282,10 +282,12 @@ def run_a(case):
 
     if pos != 'before-ehlo':
         add(EHLO)
-    if pos == 'after-success':
+    if pos in ('after-success', 'after-success-ehlo'):
         d = hmac.new(b'pw0', MSGID.encode('ascii'), hashlib.md5).hexdigest()
         add(b'AUTH CRAM-MD5\r\n')
         add(b64(b'first ' + d.encode('ascii')) + b'\r\n')
+        if pos == 'after-success-ehlo':
+            add(EHLO)                      # a second EHLO resets the transaction, not the authentication
     if pos == 'in-transaction':
         add(b'MAIL FROM:<a@x>\r\n')
     if pos == 'after-aborted-cancel':
@@ -300,7 +302,7 @@ def run_a(case):
     first_auth_index = len(body)
     for l in lines:
         add(l, v_auth)
-    if pos in ('normal', 'after-success') or pos.startswith('after-aborted'):
+    if pos in ('normal', 'after-success', 'after-success-ehlo') or pos.startswith('after-aborted'):
         add(b'MAIL FROM:<after@x>\r\n')
     add(PROBE)
     probe_index = len(body) - 1
@@ -357,7 +359,7 @@ def check_a(case, res):
     must_refuse = None
     if pos == 'before-ehlo':
         must_refuse = 'auth-before-ehlo'
-    elif pos == 'after-success':
+    elif pos in ('after-success', 'after-success-ehlo'):
         must_refuse = 'auth-after-success'
     elif pos == 'in-transaction':
         must_refuse = 'auth-inside-transaction'
